@@ -6,9 +6,9 @@ def out_kind(line):
     return " ".join(w for w in line.split() if w.startswith(("replayed=", "upfrom=")))
 
 def gen(rng, tier, n):
-    cases = [["shape %d" % k] for k in range(17)]
+    cases = [["shape %d" % k] for k in range(20)]
     for _ in range(3):
-        order = list(range(17)); rng.shuffle(order)
+        order = list(range(20)); rng.shuffle(order)
         cases.append(["shape %d" % k for k in order])
     return cases
 
